@@ -44,8 +44,17 @@ def run_requests(binary, reqs):
     def esc(s):
         return s.replace('\\', '\\\\').replace('\n', '\\n').replace('\t', '\\t')
     inp = ''.join('\t'.join(esc(x) for x in r) + '\n' for r in reqs)
-    r = subprocess.run([binary], input=inp, stdout=subprocess.PIPE, stderr=subprocess.PIPE, text=True, timeout=120)
-    return [l.split('\t') for l in r.stdout.split('\n') if l]
+    r = subprocess.run([binary], input=inp, stdout=subprocess.PIPE, stderr=subprocess.PIPE, text=True, timeout=300)
+
+    def unesc(s):
+        out, i = [], 0
+        while i < len(s):
+            if s[i] == '\\' and i + 1 < len(s):
+                out.append({'n': '\n', 't': '\t', '\\': '\\'}.get(s[i + 1], '\\' + s[i + 1])); i += 2
+            else:
+                out.append(s[i]); i += 1
+        return ''.join(out)
+    return [[unesc(x) for x in l.split('\t')] for l in r.stdout.split('\n') if l]
 
 
 # ------------------------------------------------------------------------------------------------
@@ -135,14 +144,37 @@ def find(pid, f, repo, scratch):
     binary = build_replayer(repo, scratch)
     if not binary:
         return
-    outs = run_requests(binary, [(c['op'],) + tuple(c['input'].split('\t')) for c in fam])
-    f['witness_search'] = dict(inputs_tried=len(fam))
-    for case, got in zip(fam, outs):
-        bad = case['bad'](got)
+    reqs, owner = [], []
+    for ci, c in enumerate(fam):
+        for _ in range(c.get('repeat', 1)):
+            reqs.append((c['op'],) + tuple(c['input'].split('\t')))
+            owner.append(ci)
+    outs = run_requests(binary, reqs)
+    f['witness_search'] = dict(inputs_tried=len(fam), requests=len(reqs))
+    by_case = {}
+    for ci, g in zip(owner, outs):
+        by_case.setdefault(ci, []).append(g)
+    for ci, case in enumerate(fam):
+        gs = by_case.get(ci, [])
+        if not gs:
+            continue
+        got = gs[0]
+        bad = case['bad'](gs) if case.get('repeat') else case['bad'](got)
         if bad:
-            f['witness'] = dict(public_api_input=case['input'], request=case['op'], observed=[x[:300] for x in got[:3]], expected=case['expect'])
+            f['witness'] = dict(public_api_input=case['input'], request=case['op'], observed=[x[:300] for x in got[:3]], expected=case['expect'],
+                                repeated=case.get('repeat', 1))
             f['replayed'] = True
             return
+
+
+def family_determinism():
+    """the same input compiled many times in one process (every HashMap instance has its own random hash keys)"""
+    inputs = ['-name a -o -iname a -o -name b -o -iname b', '( -name *.log -o -ipath *.log ) -fprint found.txt',
+              '-name core -o -iname core', '-fprint a -o -fprint b -o -fprint0 a -o -print0 -o -fprint c',
+              '-name x -o -name y -o -name z -o -iname x -o -path x -o -ipath x']
+    for inp in inputs:
+        yield dict(op='compile', input=inp, repeat=40, expect='byte-identical programs and equal tables on every compilation',
+                   bad=lambda gs: len(set(tuple(g) for g in gs)) > 1)
 
 
 # ------------------------------------------------------------------------------------------------
@@ -185,9 +217,65 @@ def family_refusal():
                    bad=(lambda g, bad=bad: (g[0] == 'OK' and bad) or (g[0] == 'CERR' and not bad)))
 
 
+def family_numbers():
+    vals = [0, 1, 9, 2 ** 31 - 1, 2 ** 31, 2 ** 32 - 1]
+    big = [2 ** 32, 2 ** 32 + 1, 2 ** 63, 2 ** 64 - 1]
+    prims = [('-uid', 'uid', vals), ('-gid', 'gid', vals), ('-inum', 'ino', vals), ('-mirror-count', 'lov-mirror-count', vals),
+             ('-stripe-count', 'lov-stripe-count', vals), ('-links', 'nlink', vals + big)]
+    for kw, field, vs in prims:
+        for v in vs:
+            for pre, op in (('', '='), ('+', '>'), ('-', '<')):
+                want = '(%s (%s) %d)' % (op, field, v)
+                yield dict(op='compile', input='%s %s%d' % (kw, pre, v), expect=want, bad=(lambda g, want=want: g[0] == 'OK' and want not in g[1]))
+    for n in (1, 7, 4096, 2 ** 32 - 1):
+        yield dict(op='compile', input='-threads %d -true' % n, expect='scan call ends with %d))' % n,
+                   bad=(lambda g, n=n: g[0] == 'OK' and ('\n        %d))' % n) not in g[1]))
+
+
+def family_panics():
+    """long non-ASCII arguments for every string-taking primary: looks for a panic (bad = the call panicked)"""
+    kws = ['-name', '-iname', '-path', '-ipath', '-regex', '-iregex', '-user', '-group', '-fstype', '-samefile', '-lname', '-ilname',
+           '-anewer', '-cnewer', '-mnewer', '-pool', '-xattr', '-fprint', '-fprint0', '-fls']
+    for kw in kws:
+        for ch in ('\u00e9', '\u20ac', '\U0001F600'):
+            for pad in range(0, 4):
+                for n in (20, 30, 40, 44, 45, 46, 47, 48, 60, 80, 90, 100, 120):
+                    arg = 'a' * pad + ch * n
+                    yield dict(op='compile', input='%s %s' % (kw, arg), expect='a result or an error value, never a panic', bad=lambda g: g[0] == 'PANIC')
+    for arg in ('\u00e9' * 70, 'x' * 46 + '\u00e9tat', '-' + 'x' * 46 + '\u00e9tat'):
+        yield dict(op='parse', input=arg, expect='an error value, never a panic', bad=lambda g: g[0] == 'PANIC')
+
+
+def _scheme_esc(s):
+    return s.replace('\\', '\\\\').replace('"', '\\"')
+
+
+def family_hostile():
+    """user strings and device paths made of characters and words that a careless implementation would interpret"""
+    words = ['a"b', 'a\\b', '{mdt}', '{policy}', '{options}', '{}', '{0}', '~a', '~', '%s', 'x y', "it's", 'caf\u00e9', '$1', '#t', '(x)', ';c', '{fini}', '{definitions}']
+    paths = ['/', '/dev/a"b', '/mnt/{options}/mdt0', '/mnt/{policy}', '/a\\b', '/x y', '/{mdt}', '/~a', '/caf\u00e9', '/{fini}/{modules}']
+
+    def quote(wd):
+        return "'%s'" % wd if "'" not in wd else '"%s"' % wd
+    for wd in words:
+        if '"' in wd and "'" in wd:
+            continue
+        for p in paths:
+            want_dev = '(lipe-scan\n        "%s"\n' % _scheme_esc(p)
+            want_pat = '(streq? "%s" ' % _scheme_esc(wd)
+            yield dict(op='compile', input='-name %s\t%s' % (quote(wd), p),
+                       expect='device literal "%s" after (lipe-scan, and the pattern literal "%s" in its matcher' % (_scheme_esc(p), _scheme_esc(wd)),
+                       bad=(lambda g, a=want_dev, b=want_pat: g[0] == 'OK' and (a not in g[1] or b not in g[1])))
+
+
 GENERATED = {
     'C09.top.wrap_decision': family_wrap, 'C19.action.iff': family_wrap, 'C09.emit.structure': family_wrap,
     'C12.refusal.iff': family_refusal, 'C12.top.iff': family_refusal,
+    'C11.body.matcher_ref': family_numbers, 'C13.top.threads_value': family_numbers, 'C13.update.threads': family_numbers,
+    'ASSUME.string_truncate': family_panics,
+    'C20.render.text': family_hostile, 'C04.escape.string': family_hostile,
+    'C11.local.definitions': family_determinism, 'C11.dist.definitions': family_determinism,
+    'C11.local.matcher.text': family_determinism, 'C11.dist.matcher.text': family_determinism,
 }
 
 
